@@ -782,3 +782,144 @@ Qed.
 
 Theorem create_patch_same a : wfb a = true -> create_patch a a = [].
 Proof. intros H. apply handle_same; [apply le_n|exact H]. Qed.
+
+(** ** the patch applies to any document equal to its source up to member order
+    (the raw JSON the API server patches lists the members in its own order) *)
+Lemma orel_inv_some {A} (R : A -> A -> Prop) x o : orel R (Some x) o -> exists y, o = Some y /\ R x y.
+Proof. intros H. inversion H; subst. eauto. Qed.
+Lemma orel_inv_none {A} (R : A -> A -> Prop) o : orel R None o -> o = None.
+Proof. intros H. now inversion H. Qed.
+
+Lemma jeq_obj_inv m1 y : jeq (JObj m1) y -> exists m2, y = JObj m2 /\ forall k, orel jeq (lookup k m1) (lookup k m2).
+Proof. intros H. inversion H; subst. eauto. Qed.
+Lemma jeq_arr_inv l1 y : jeq (JArr l1) y -> exists l2, y = JArr l2 /\ Forall2 jeq l1 l2.
+Proof. intros H. inversion H; subst. eauto. Qed.
+
+Lemma jeq_set k v v' m m' : jeq v v' -> (forall k0, orel jeq (lookup k0 m) (lookup k0 m')) ->
+  forall k0, orel jeq (lookup k0 (set k v m)) (lookup k0 (set k v' m')).
+Proof.
+  intros Hv Hm k0. destruct (string_dec k0 k) as [->|Hn].
+  - rewrite !lookup_set_same. now constructor.
+  - rewrite !lookup_set_other by assumption. apply Hm.
+Qed.
+Lemma jeq_del k m m' : (forall k0, orel jeq (lookup k0 m) (lookup k0 m')) ->
+  forall k0, orel jeq (lookup k0 (del k m)) (lookup k0 (del k m')).
+Proof.
+  intros Hm k0. destruct (string_dec k0 k) as [->|Hn].
+  - rewrite !lookup_del_same. constructor.
+  - rewrite !lookup_del_other by assumption. apply Hm.
+Qed.
+
+Lemma Forall2_firstn {A} (R : A -> A -> Prop) n : forall l l', Forall2 R l l' -> Forall2 R (firstn n l) (firstn n l').
+Proof. induction n as [|n IH]; intros l l' H; [constructor|]. destruct H; simpl; constructor; auto. Qed.
+Lemma Forall2_skipn {A} (R : A -> A -> Prop) n : forall l l', Forall2 R l l' -> Forall2 R (skipn n l) (skipn n l').
+Proof. induction n as [|n IH]; intros l l' H; [exact H|]. destruct H; simpl; [constructor|auto]. Qed.
+Lemma Forall2_nth_error {A} (R : A -> A -> Prop) l l' : Forall2 R l l' -> forall i x, nth_error l i = Some x ->
+  exists y, nth_error l' i = Some y /\ R x y.
+Proof.
+  intros H. induction H as [|a b l l' Hab H IH]; intros i x Hi; [destruct i; discriminate|].
+  destruct i as [|i]; simpl in *; [injection Hi as <-; eauto|apply IH; exact Hi].
+Qed.
+Lemma Forall2_length' {A} (R : A -> A -> Prop) l l' : Forall2 R l l' -> List.length l = List.length l'.
+Proof. intros H. induction H; simpl; congruence. Qed.
+
+Lemma apply_at_jeq k p v : forall d d' e, jeq d d' -> apply_at k p v d = Some e ->
+  exists e', apply_at k p v d' = Some e' /\ jeq e e'.
+Proof.
+  induction p as [|t p IH]; intros d d' e Hd Ha.
+  - simpl in *. destruct k; try discriminate. injection Ha as <-. exists v. split; [reflexivity|apply jeq_refl].
+  - assert (Desc : forall f, (forall c c' e0, jeq c c' -> f c = Some e0 -> exists e1, f c' = Some e1 /\ jeq e0 e1) ->
+                   descend t f d = Some e -> exists e', descend t f d' = Some e' /\ jeq e e').
+    { intros f Hf Hdesc. destruct t as [key|i]; destruct d as [| | | |l|m]; try discriminate Hdesc.
+      - apply jeq_obj_inv in Hd as (m' & -> & Hm). simpl in *.
+        destruct (lookup key m) as [c|] eqn:Ec; [|discriminate].
+        destruct (orel_inv_some _ _ _ (eq_ind _ (fun o => orel jeq o (lookup key m')) (Hm key) _ Ec)) as (c' & Ec' & Hc).
+        rewrite Ec'. destruct (f c) as [e0|] eqn:Ef; [|discriminate]. injection Hdesc as <-.
+        destruct (Hf c c' e0 Hc Ef) as (e1 & -> & He). eexists. split; [reflexivity|]. constructor. now apply jeq_set.
+      - apply jeq_arr_inv in Hd as (l' & -> & Hl). simpl in *.
+        destruct (nth_error l i) as [c|] eqn:Ec; [|discriminate].
+        destruct (Forall2_nth_error _ _ _ Hl i c Ec) as (c' & -> & Hc).
+        destruct (f c) as [e0|] eqn:Ef; [|discriminate]. injection Hdesc as <-.
+        destruct (Hf c c' e0 Hc Ef) as (e1 & -> & He). eexists. split; [reflexivity|]. constructor.
+        apply Forall2_app; [now apply Forall2_firstn|]. constructor; [exact He|exact (Forall2_skipn jeq (S i) l l' Hl)]. }
+    assert (DescIH : descend t (apply_at k p v) d = Some e -> exists e', descend t (apply_at k p v) d' = Some e' /\ jeq e e').
+    { apply Desc. intros c c' e0 Hc He0. exact (IH c c' e0 Hc He0). }
+    cbn [apply_at] in *. destruct k; destruct p as [|t' p']; try (apply DescIH; exact Ha).
+    + (* leaf add *)
+      destruct t as [key|i]; destruct d as [| | | |l|m]; try discriminate Ha.
+      * apply jeq_obj_inv in Hd as (m' & -> & Hm). simpl in *. injection Ha as <-. eexists. split; [reflexivity|].
+        constructor. apply jeq_set; [apply jeq_refl|exact Hm].
+      * apply jeq_arr_inv in Hd as (l' & -> & Hl). simpl in *. rewrite <- (Forall2_length' _ _ _ Hl).
+        destruct (i <=? List.length l); [|discriminate]. injection Ha as <-. eexists. split; [reflexivity|]. constructor.
+        apply Forall2_app; [now apply Forall2_firstn|]. constructor; [apply jeq_refl|now apply Forall2_skipn].
+    + (* leaf remove *)
+      destruct t as [key|i]; destruct d as [| | | |l|m]; try discriminate Ha.
+      * apply jeq_obj_inv in Hd as (m' & -> & Hm). simpl in *.
+        destruct (lookup key m) as [c|] eqn:Ec; [|discriminate].
+        destruct (orel_inv_some _ _ _ (eq_ind _ (fun o => orel jeq o (lookup key m')) (Hm key) _ Ec)) as (c' & -> & Hc).
+        injection Ha as <-. eexists. split; [reflexivity|]. constructor. now apply jeq_del.
+      * apply jeq_arr_inv in Hd as (l' & -> & Hl). simpl in *. rewrite <- (Forall2_length' _ _ _ Hl).
+        destruct (i <? List.length l); [|discriminate]. injection Ha as <-. eexists. split; [reflexivity|]. constructor.
+        apply Forall2_app; [now apply Forall2_firstn|exact (Forall2_skipn jeq (S i) l l' Hl)].
+Qed.
+
+Lemma apply_ops_jeq ops : forall d d' e, jeq d d' -> apply_ops ops d = Some e ->
+  exists e', apply_ops ops d' = Some e' /\ jeq e e'.
+Proof.
+  induction ops as [|o r IH]; intros d d' e Hd Ha; simpl in *.
+  - injection Ha as <-. eauto.
+  - destruct (apply_op o d) as [d1|] eqn:E1; [|discriminate]. unfold apply_op in *.
+    destruct (apply_at_jeq _ _ _ _ _ _ Hd E1) as (d1' & -> & H1). exact (IH _ _ _ H1 Ha).
+Qed.
+
+Lemma Forall2_trans_in {A} (R : A -> A -> Prop) l1 : forall l2 l3,
+  (forall a, In a l1 -> forall b c, R a b -> R b c -> R a c) ->
+  Forall2 R l1 l2 -> Forall2 R l2 l3 -> Forall2 R l1 l3.
+Proof.
+  induction l1 as [|a l1 IH]; intros l2 l3 Ht H12 H23.
+  - inversion H12; subst. inversion H23; subst. constructor.
+  - inversion H12 as [|? b ? l2' Hab H12']; subst. inversion H23 as [|? c ? l3' Hbc H23']; subst.
+    constructor; [apply (Ht a (or_introl eq_refl) b c Hab Hbc)|].
+    apply (IH l2' l3'); [intros a0 Ha0; apply Ht; now right|exact H12'|exact H23'].
+Qed.
+
+Lemma jeq_trans_n n : forall x y z, size x <= n -> jeq x y -> jeq y z -> jeq x z.
+Proof.
+  induction n as [|n IH]; intros x y z Hs Hxy Hyz; [pose proof (size_pos x); lia|].
+  inversion Hxy as [| | | |l1 l2 Hl|m1 m2 Hm]; subst; try exact Hyz.
+  - apply jeq_arr_inv in Hyz as (l3 & -> & Hl'). constructor.
+    apply (Forall2_trans_in jeq l1 l2 l3); [|exact Hl|exact Hl'].
+    intros a Ha b c Hab Hbc. apply (IH a b c); [apply size_in_arr in Ha; lia|exact Hab|exact Hbc].
+  - apply jeq_obj_inv in Hyz as (m3 & -> & Hm'). constructor. intros k.
+    specialize (Hm k). specialize (Hm' k).
+    destruct (lookup k m1) as [v1|] eqn:E1.
+    + apply orel_inv_some in Hm as (v2 & E2 & H12). rewrite E2 in Hm'.
+      apply orel_inv_some in Hm' as (v3 & -> & H23). constructor.
+      apply (IH v1 v2 v3); [apply size_lookup in E1; lia|exact H12|exact H23].
+    + apply orel_inv_none in Hm. rewrite Hm in Hm'. apply orel_inv_none in Hm'. rewrite Hm'. constructor.
+Qed.
+Lemma jeq_trans x y z : jeq x y -> jeq y z -> jeq x z.
+Proof. apply (jeq_trans_n (size x)). lia. Qed.
+
+(** * the patch is faithful on every document equal to its source up to member order *)
+Theorem patch_faithful_any_order a a' b :
+  wfb a = true -> wfb b = true -> jeq a a' ->
+  exists r, apply_ops (create_patch a b) a' = Some r /\ jeq r b.
+Proof.
+  intros Ha Hb Haa. destruct (patch_faithful a b Ha Hb) as (r & Hr & Hj).
+  destruct (apply_ops_jeq _ _ _ _ Haa Hr) as (r' & Hr' & Hj').
+  exists r'. split; [exact Hr'|]. apply jeq_trans with (y := r); [|exact Hj].
+  (* jeq is symmetric on results of the same script; here we only need r' ~ r from r ~ r' *)
+  clear - Hj'. revert Hj'. generalize r r'. clear. intros x.
+  assert (S : forall n x y, size x <= n -> jeq x y -> jeq y x).
+  { induction n as [|n IH]; intros x0 y Hs H; [pose proof (size_pos x0); lia|].
+    inversion H as [| | | |l1 l2 Hl|m1 m2 Hm]; subst; try constructor.
+    - assert (Hin : forall a, In a l1 -> size a <= n) by (intros a Ha; apply size_in_arr in Ha; lia).
+      clear Hs H. induction Hl as [|a b l1 l2 Hab Hl IHl]; constructor.
+      + apply (IH a b); [apply Hin; now left|exact Hab].
+      + apply IHl. intros c Hc. apply Hin. now right.
+    - intros k. specialize (Hm k). destruct (lookup k m1) as [v1|] eqn:E1.
+      + apply orel_inv_some in Hm as (v2 & -> & H12). constructor. apply (IH v1 v2); [apply size_lookup in E1; lia|exact H12].
+      + apply orel_inv_none in Hm. rewrite Hm. constructor. }
+  intros y H. apply (S (size x) x y); [lia|exact H].
+Qed.
